@@ -34,7 +34,8 @@ Judge(e) ==
     THEN [ok |-> FALSE, why |-> "input", g |-> <<>>]
     ELSE LET m == IF e.margin = -1 THEN DefaultMargin(e.fmt) ELSE e.margin
              g == Geom(ClassOf(e.fmt), sym.nw, sym.nh, e.rw, e.rh, m)
-             table == TLCEval([k \in 0..sym.nh |-> ImageRow(sym.mods, sym.nw, g, k)])
+             cols == TLCEval(ColumnMap(sym.nw, g))
+             table == TLCEval([k \in 0..sym.nh |-> ImageRow(sym.mods, cols, k)])
              ok == /\ e.err = 0 /\ e.panic = 0
                    /\ e.gw = g.ow /\ e.gh = g.oh
                    /\ e.bounds = <<0, 0, g.ow, g.oh>> /\ e.gray = 1 /\ e.badcolor = 0
